@@ -23,6 +23,7 @@ class _UnitsInterp(FinamInterp):
         self.compatible, self.equivalent = compatible, equivalent
         self.conversions = 0
         self.cache = {}
+        self.close_args = []
 
     def global_name(self, name, mod):
         if name == "_UNIT_PAIRS_CACHE":
@@ -37,6 +38,8 @@ class _UnitsInterp(FinamInterp):
             return a
         if isinstance(fv, Closure) and getattr(fv.func, "name", "") in ("check_quantified",):
             return None
+        if isinstance(fv, Sym) and fv.op == "unitmethod":
+            return self.compatible
         if isinstance(fv, Sym) and fv.op == "to_of":
             self.conversions += 1
             src, dst = fv.args[0], args[0]
@@ -52,6 +55,8 @@ class _UnitsInterp(FinamInterp):
         return raised.name in U(type_expr)
 
     def get_attr(self, obj, attr, node, mod):
+        if isinstance(obj, Sym) and obj.op == "unit" and attr in ("is_compatible_with", "dimensionality"):
+            return Sym("unitmethod", obj, attr) if attr == "is_compatible_with" else Sym("base", obj)
         if isinstance(obj, Sym) and obj.op == "qty":
             if attr == "to":
                 return Sym("to_of", obj)
@@ -67,15 +72,21 @@ class _UnitsInterp(FinamInterp):
         return super().binop(op, left, right, node)
 
     def ext_call(self, name, args, kwargs, node):
-        if name.endswith("isclose"):
-            if args and args[0] == 1.0:
+        if name.endswith("isclose") or name.endswith("allclose"):
+            self.close_args.append(tuple(args[:2]))
+            if args and args[0] == 1.0 and args[1] == 1.0:
                 return True
             return self.equivalent
+        if name.endswith("get_base_units"):
+            u = args[0]
+            return (Sym("factor", u), Sym("base", u))
         if name.endswith("Quantity"):
             return Sym("qty", args[0], args[1])
         return super().ext_call(name, args, kwargs, node)
 
     def sym_compare(self, op, left, right, node):
+        if isinstance(left, Sym) and isinstance(right, Sym) and left.op == right.op == "base" and isinstance(op, (ast.Eq, ast.NotEq)):
+            return self.compatible if isinstance(op, ast.Eq) else not self.compatible
         if isinstance(left, Sym) and isinstance(right, Sym) and left.op == "unit" and right.op == "unit":
             eq = left == right
             return eq if isinstance(op, ast.Eq) else (not eq) if isinstance(op, ast.NotEq) else super().sym_compare(op, left, right, node)
@@ -129,16 +140,23 @@ def r36_units(repo, sink):
     tu = repo.func(UNITS_PY, "to_units")
     a, b = Sym("unit", "a"), Sym("unit", "b")
     worst = None
-    cache_fn = repo.func(UNITS_PY, "_cache_units")
-    conv = [n for n in fn_walk(cache_fn.node) if isinstance(n, ast.Call) and isinstance(n.func, ast.Attribute) and n.func.attr == "to"]
-    close = [n for n in fn_walk(cache_fn.node) if isinstance(n, ast.Call) and call_name(n) in ("isclose", "allclose")]
-    if not conv or not close:
-        sink.bad("R36", "units:equivalence-by-conversion", cache_fn,
-                 "equivalence / compatibility of a unit pair is no longer decided by converting 1 from one unit to the other and "
-                 "comparing with 1 (`(1.0 * unit1).to(unit2)` ~ 1): factor-only comparisons treat offset units (degC / K) as equivalent, "
-                 "so data is relabelled instead of converted")
+    # equivalence is decided by converting the value 1 from one unit into the other and comparing the result with 1
+    # (a comparison of scale factors would call degC and K equivalent): observed in an abstract run
+    probe = _UnitsInterp(repo, True, True)
+    try:
+        probe.run(eu, [a, b])
+        converted = [c for c in probe.close_args if any(isinstance(x, Sym) and x.op == "conv" and x.args[0] == 1.0 and x.args[1:] == (a, b) for x in c)]
+        by_conv = probe.conversions >= 1 and bool(converted)
+        sink.check(by_conv, "R36", "units:equivalence-by-conversion", eu,
+                   ok="pair is classified by converting 1 between the units",
+                   bad="equivalence / compatibility of a unit pair is no longer decided by converting 1 from one unit to the other and "
+                       f"comparing with 1 (conversions: {probe.conversions}, closeness tested on {probe.close_args!r}): factor-only comparisons treat "
+                       "offset units (degC / K) as equivalent, so data is relabelled instead of converted")
+        if not by_conv:
+            return
+    except (Raised, Undecided, AnalysisError) as exc:
+        sink.unknown("R36", "units:equivalence-by-conversion", eu, f"equivalent_units outside vocabulary: {exc}")
         return
-    sink.ok("R36", "units:equivalence-by-conversion", cache_fn, "pair is classified by converting 1 between the units")
     for compatible, equivalent in ((True, True), (True, False), (False, False)):
         it = _UnitsInterp(repo, compatible, equivalent)
         try:
@@ -921,25 +939,30 @@ def r16_getinfo(repo, sink):
         cfg = CFG(f.node)
         ex = [x for x in calls(f.node, "exchange_info") if isinstance(x.func, ast.Attribute) and self_attr(x.func)]
         nodes = [cfg.node_of(x) for x in ex]
-        once = len(ex) == 1 and not cfg.reachable(cfg.entry, cfg.exit, avoid=nodes) and not cfg.in_loop(nodes[0])
+        # every non-raising path passes exactly one exchange: none avoids all call sites, none reaches a second one
+        once = bool(ex) and not cfg.reachable(cfg.entry, cfg.exit, avoid=nodes) and not any(cfg.in_loop(n) for n in nodes) \
+            and not any(a is not b and cfg.reachable(a, b) for a in nodes for b in nodes)
         sink.check(once, "R16", f"exchange-once:{c.name}", f, ok="exchange_info is called exactly once on every non-raising path",
                    bad=f"{c.name}._get_info does not call exchange_info exactly once on every path: upstream never learns the request")
         if not ex:
             continue
         # request derived from the incoming info
         p0 = f.params[0]
-        arg = ex[0].args[0] if ex[0].args else None
-        derived = arg is not None and _derives_from(f, arg, {p0})
+        derived = all(x.args and _derives_from(f, x.args[0], {p0}) for x in ex)
         sink.check(derived, "R16", f"request-from-info:{c.name}", f, ok="the upstream request is derived from the incoming info",
                    bad=f"{c.name}._get_info sends a request that does not derive from the consumer's info")
-        st = ex[0]
-        while not isinstance(st, ast.stmt):
-            st = st._parent
-        res = {t.id for t in st.targets if isinstance(t, ast.Name)} if isinstance(st, ast.Assign) else set()
+        res, ex_stmts = set(), []
+        for x in ex:
+            st = x
+            while not isinstance(st, ast.stmt):
+                st = st._parent
+            ex_stmts.append(st)
+            if isinstance(st, ast.Assign):
+                res |= {t.id for t in st.targets if isinstance(t, ast.Name)}
         rets = [r for r in fn_walk(f.node) if isinstance(r, ast.Return) and r.value is not None]
         ok = bool(rets)
         for r in rets:
-            if isinstance(st, ast.Return) and r is st:
+            if any(isinstance(st, ast.Return) and r is st for st in ex_stmts):
                 continue
             ok = ok and _derives_from(f, r.value, res, stop={p0}) and not (isinstance(r.value, ast.Name) and r.value.id == p0)
         sink.check(ok, "R16", f"returns-exchange-result:{c.name}", f, ok="the delivered info derives from the exchange result",
@@ -1117,6 +1140,10 @@ class _GridCompat(FinamInterp):
             return self.close
         if short == "all" and isinstance(args[0], (bool, list, tuple)):
             return bool(args[0]) if isinstance(args[0], bool) else all(args[0])
+        if short in ("array_equal", "array_equiv") and all(isinstance(a, (list, tuple)) for a in args[:2]):
+            return list(args[0]) == list(args[1])  # concrete configuration vectors (axes directions, shapes)
+        if short in ("asarray", "array") and args and isinstance(args[0], (list, tuple)):
+            return args[0]
         return super().ext_call(name, args, kwargs, node)
 
     def sym_compare(self, op, left, right, node):
